@@ -259,7 +259,7 @@ def check(prog: Program, tier: str) -> Result:
             "all its non-returning statements and returned expressions are effect-free; (R16.7) consumers delete on "
             "the safe polarity; (R16.8) the loop context travels with every recursive is_blocking call; (R16.9) the analysers do not "
             "mutate their arguments (shared whitelist); (R16.10) a break of a `while True:` loop is searched at any depth in if / with / try / match "
-            "children; (R16.11) delete_unreachable_code deletes a whole if/while only when nothing of it runs; (R16.12) the statement that ends the "
+            "children; (R16.11) delete_unreachable_code deletes a whole if/while only when nothing of it runs; (R16.4 also: whether a for loop runs is decided by iterating the evaluated header, never by its truth value; R16.14: the analysers keep no module-level memory of verdicts) (R16.12) the statement that ends the "
             "scan of a function body is checked for effects; (R16.13) builtins the module redefines leave the initial safe set. "
             "Not decided: reachability proper (with-suppress, exceptions) and the answers for "
             "covered fields."),
@@ -285,6 +285,7 @@ def check(prog: Program, tier: str) -> Result:
     _consumers(prog, res)
     _analyser_purity(prog, res)
     _whole_statement_deletes(prog, res)
+    _r16_14(prog, res)
     res.floors.update({"R16.1": 60, "R16.2": 25, "R16.3": 10, "R16.4": 2, "R16.5": 1, "R16.6": 3, "R16.7": 8, "R16.8": 5, "R16.9": 2, "R16.10": 4, "R16.11": 1, "R16.12": 1, "R16.13": 1})
     res.analysed.update({"ast_kinds": len(kinds)})
     return res
@@ -571,6 +572,43 @@ def _is_blocking(prog: Program, res: Result, fn: Func, kinds: List[type]) -> Non
             res.decide(ok, "R16.4", fn.loc(r), fn.fq, f"{cls}: {norm(r)}",
                        f"reached only after {node}.{hdr} was evaluated successfully" if ok else
                        f"'blocking' can be answered for a {cls.lower()} loop whose header value is unknown: the loop may run zero times, yet the statements after it are deleted")
+    # R16.4 (emptiness): whether a for loop runs at all is a question about ITERATING the header value, not about its truth
+    # value - zip(), map(), filter(), reversed(), iter() objects are truthy when they yield nothing
+    from ..defuse import bindings as _bindings
+    tested = []
+    for n in ast.walk(fn.node):
+        if isinstance(n, (ast.If, ast.While, ast.IfExp)):
+            tested.append(n.test)
+        elif isinstance(n, ast.UnaryOp) and isinstance(n.op, ast.Not):
+            tested.append(n.operand)
+        elif isinstance(n, ast.BoolOp):
+            tested.extend(n.values)
+        elif isinstance(n, ast.comprehension):
+            tested.extend(n.ifs)
+        elif isinstance(n, ast.Call) and isinstance(n.func, ast.Name) and n.func.id == "bool" and n.args:
+            tested.append(n.args[0])
+
+    def header_value(e: ast.AST) -> bool:
+        if isinstance(e, ast.Call) and e.args and norm(e.args[0]) == f"{node}.iter":
+            r_ = prog.resolve_call(e.func, fn.mod, fn)
+            return bool(r_ and r_[0] == "fn" and r_[1].name.lstrip("_").startswith("literal_value"))
+        if isinstance(e, ast.NamedExpr):
+            return header_value(e.value)
+        if isinstance(e, ast.Name):
+            defs = [v for (_s, v) in _bindings(fn).get(e.id, [])]
+            return bool(defs) and all(v is not None and header_value(v) for v in defs)
+        return False
+    hits = [e for e in tested if header_value(e)]
+    for e in hits:
+        res.bad("R16.4", fn.loc(e), fn.fq, f"For: truth value of {norm(e)}",
+                "the emptiness of a for loop's iterable is decided by its truth value: iterator objects (zip, map, filter, reversed, enumerate, iter) are truthy "
+                "even when they yield nothing, so `for x in zip([], y): return` is called blocking and the code after it is deleted")
+    iterated = [n for n in ast.walk(fn.node) if isinstance(n, ast.comprehension) and header_value(n.iter)] + \
+               [n for n in ast.walk(fn.node) if isinstance(n, ast.Call) and isinstance(n.func, ast.Name) and n.func.id in ("list", "tuple", "iter", "next", "len", "sorted")
+                and n.args and header_value(n.args[0])]
+    if not hits:
+        res.decide(bool(iterated), "R16.4", fn.loc(iterated[0]) if iterated else fn.loc(), fn.fq, "For: emptiness of the evaluated iterable",
+                   "decided by iterating the value" if iterated else "no test of the evaluated iterable's emptiness found")
     # R16.10 a loop is only 'blocking' (never left) if no `break` of it exists at any depth
     _break_search(prog, res, fn)
     # R16.8 the loop context travels with every recursive call (break/continue block only outside a loop)
@@ -652,6 +690,29 @@ class EvalPA(PathAnalysis):
 
 
 # ------------------------------------------------------------------------------------------------ R16.6
+def _admission_test(fn: Func, anycall: ast.Call):
+    """any(has_side_effect(child, S) for child in chain(<statements>, <returned values>)), unfiltered."""
+    from ..defuse import assignments
+    g = anycall.args[0] if anycall.args else None
+    txt = norm(g) if g is not None else ""
+    covers_both = "has_side_effect(" in txt
+    it = g.generators[0].iter if isinstance(g, (ast.GeneratorExp, ast.ListComp)) else None
+    srcs = set()
+    if it is not None:
+        for x in ast.walk(it):
+            if isinstance(x, ast.Name):
+                srcs.add(x.id)
+    ret_def_ok = False
+    for s_ in srcs:
+        for _, d in assignments(fn, s_):
+            if d is not None and "ast.Return" in norm(d):
+                ret_def_ok = True
+    ok = covers_both and len(srcs) >= 2 and ret_def_ok and it is not None and not g.generators[0].ifs
+    detail = (f"admitted only if no statement before the first blocking one and no returned value has an effect ({sorted(srcs)})" if ok else
+              f"the admission test ranges over {sorted(srcs)}: statements and returned expressions must both be covered, unfiltered")
+    return ok, detail
+
+
 def _safe_callables(prog: Program, res: Result) -> None:
     node = prog.module("constants").globals.get("SAFE_CALLABLES")
     where = f"pyrefact/constants.py:{node.lineno if node is not None else 0}"
@@ -676,28 +737,32 @@ def _safe_callables(prog: Program, res: Result) -> None:
         detail = "admission is not guarded by `not any(has_side_effect(child, safe) for child in <statements and returned values>)`"
         if isinstance(host, ast.If):
             t = host.test
+            helper = None
+            tcall = t.operand if isinstance(t, ast.UnaryOp) and isinstance(t.op, ast.Not) else t
+            if isinstance(tcall, ast.Call) and norm(tcall.func) != "any":
+                r_ = prog.resolve_call(tcall.func, fn.mod, fn)
+                if r_ and r_[0] == "fn" and r_[1].mod is fn.mod:
+                    helper = r_[1]
             if isinstance(t, ast.UnaryOp) and isinstance(t.op, ast.Not) and isinstance(t.operand, ast.Call) and norm(t.operand.func) == "any":
-                g = t.operand.args[0]
-                txt = norm(g)
-                covers_both = "has_side_effect(" in txt
-                it = g.generators[0].iter if isinstance(g, (ast.GeneratorExp, ast.ListComp)) else None
-                srcs = set()
-                if it is not None:
-                    for x in ast.walk(it):
-                        if isinstance(x, ast.Name):
-                            srcs.add(x.id)
-                # the iterated collections must include the statements up to the first blocking one and the returned values
-                stm = any("nonreturn" in s or "children" in s or "body" in s for s in srcs)
-                ret = any("return" in s for s in srcs)
-                from ..defuse import assignments
-                ret_def_ok = False
-                for s in srcs:
-                    for _, d in assignments(fn, s):
-                        if d is not None and "ast.Return" in norm(d):
-                            ret_def_ok = True
-                ok = covers_both and len(srcs) >= 2 and ret_def_ok and not g.generators[0].ifs
-                detail = (f"admitted only if no statement before the first blocking one and no returned value has an effect ({sorted(srcs)})" if ok else
-                          f"the admission test ranges over {sorted(srcs)}: statements and returned expressions must both be covered, unfiltered")
+                ok, detail = _admission_test(fn, t.operand)
+            elif helper is not None and tcall is t:
+                # the admission test lives in a helper: every path on which it answers yes must carry the same test
+                hpa = PathAnalysis(prog, helper)
+                anys = [c for c in ast.walk(helper.node) if isinstance(c, ast.Call) and norm(c.func) == "any" and "has_side_effect(" in norm(c)]
+                rets = [r for r in walk_own(helper.node) if isinstance(r, ast.Return)
+                        and not (isinstance(r.value, ast.Constant) and r.value.value in (False, None))]
+                ok = bool(rets) and bool(anys)
+                detail = f"{helper.name}() answers yes only if no statement before the first blocking one and no returned value has an effect"
+                for r in rets:
+                    if isinstance(r.value, ast.UnaryOp) and isinstance(r.value.op, ast.Not) and any(r.value.operand is c for c in anys):
+                        sub_ok, sub_detail = _admission_test(helper, r.value.operand)
+                    else:
+                        held = [c for c in anys if hpa.holds_at(r, lambda w, c=c: hpa.formula(c, w, False))[0]]
+                        sub_ok, sub_detail = (_admission_test(helper, held[0]) if held else
+                                              (False, f"{helper.name}() answers `{norm(r)}` at line {r.lineno} on a path that never tested the statements and returned values for effects"))
+                    if not sub_ok:
+                        ok, detail = False, sub_detail
+                        break
             else:
                 # admission of a class: all constructors known safe AND the base classes considered
                 loop = parent(host)
@@ -731,11 +796,56 @@ def _safe_callables(prog: Program, res: Result) -> None:
                f"starts from {norm(init[0])}" if init else "does not start from constants.SAFE_CALLABLES")
 
 
+def _r16_14(prog: Program, res: Result) -> None:
+    """R16.14: a verdict 'effect-free' / 'unreachable' is about ONE module: the names it depends on (which callables are safe,
+    which names are rebound) differ from module to module.  The analysers must therefore keep no module-level memory of
+    verdicts - decided by the ownership analysis of C05 (R5.2), restricted to the functions the deleting rules reach."""
+    roots = [k for k in (("parsing", "safe_callable_names"), ("core", "has_side_effect"), ("core", "is_blocking"),
+                         ("fixes", "delete_pointless_statements"), ("fixes", "delete_unreachable_code")) if k in prog.funcs]
+    if len(roots) < 5:
+        raise AnalysisError("anchors of the purity / reachability analysers not found")
+    reach = set()
+    todo = [prog.funcs[k] for k in roots]
+    while todo:
+        f = todo.pop()
+        if f.key in reach:
+            continue
+        reach.add(f.key)
+        for c in prog.calls_in(f):
+            r = prog.resolve_call(c.func, f.mod, f)
+            if r and r[0] == "fn":
+                todo.append(r[1])
+    fqs = {prog.funcs[k].fq for k in reach}
+    from ..ownership import Ownership
+    own = Ownership(prog)
+    n = 0
+    for f in own.unique_findings():
+        if f.origin.startswith("module:") and f.fn.fq in fqs:
+            n += 1
+            res.bad("R16.14", f.fn.loc(f.node), f.fn.fq, norm(f.node)[:120],
+                    f"{f.what}: the analyser writes the module-level object {f.origin[7:]}; a verdict reached for one module (whose helpers were effect-free) "
+                    "is replayed for another module in which the same text calls something else")
+    for k in sorted(reach):
+        for g in walk_own(prog.funcs[k].node):
+            if isinstance(g, ast.Global):
+                n += 1
+                res.bad("R16.14", prog.funcs[k].loc(g), prog.funcs[k].fq, norm(g), "module-level state rebound by an analyser")
+    res.ok("R16.14", "pyrefact/", "package", f"module-level objects written by the {len(reach)} functions the purity and reachability analysers reach",
+           f"{n} found", trivial=bool(n))
+
+
 def _scan_stop(prog: Program, res: Result, fn: Func) -> None:
     """R16.12: the statements of a function are scanned up to the first blocking one.  That statement itself runs - a
     `raise`, an `assert False`, an if/else that prints and returns in both branches - so it must be among the checked
     statements unless it is a plain `return` (whose value is checked with the returned expressions)."""
-    for loop in [l for l in walk_own(fn.node) if isinstance(l, ast.For) and isinstance(l.target, ast.Name) and norm(l.iter).endswith(".body")]:
+    # the scan may live in a helper of the inference (one call level)
+    hosts = [fn]
+    for c in prog.calls_in(fn):
+        r = prog.resolve_call(c.func, fn.mod, fn)
+        if r and r[0] == "fn" and r[1].mod is fn.mod and r[1] not in hosts:
+            hosts.append(r[1])
+    loops = [(h, l) for h in hosts for l in walk_own(h.node) if isinstance(l, ast.For) and isinstance(l.target, ast.Name) and norm(l.iter).endswith(".body")]
+    for fn, loop in loops:
         child = loop.target.id
         stops = [i for i in loop.body if isinstance(i, ast.If) and "is_blocking(" in norm(i.test) and any(isinstance(x, ast.Break) for x in ast.walk(i))]
         if not stops:
@@ -864,6 +974,11 @@ def _positive(test: ast.AST) -> bool:
 from ..selftest import Variant  # noqa: E402
 
 VARIANTS: List[Variant] = [
+    Variant("for-emptiness-by-list", "SILENT", "core", "            if not any(True for _ in literal_value(node.iter)):", "            if not list(literal_value(node.iter)):"),
+    Variant("for-emptiness-by-truth-value", "FIRE", "core", "            if not any(True for _ in literal_value(node.iter)):", "            iterable = literal_value(node.iter)\n            if not iterable:", "R16.4"),
+    Variant("admission-test-in-a-helper", "SILENT", "parsing", '            nonreturn_children = []\n            for child in node.body:\n                if core.is_blocking(child):\n                    if not isinstance(child, ast.Return):\n                        # For example a raise, or an if where all branches return\n                        nonreturn_children.append(child)\n                    break\n\n                nonreturn_children.append(child)\n            return_children = [child.value for child in core.walk(node, ast.Return)]\n\n            if not any(\n                core.has_side_effect(child, safe_callables)\n                for child in itertools.chain(nonreturn_children, return_children)\n            ):\n                safe_callable_nodes.add(node)', '            if _definition_is_pure(node, safe_callables):\n                safe_callable_nodes.add(node)', extra=[("parsing", 'def safe_callable_names(root: ast.Module) -> Collection[str]:', 'def _definition_is_pure(node, safe_callables):\n    pass\n    nonreturn_children = []\n    for child in node.body:\n        if core.is_blocking(child):\n            if not isinstance(child, ast.Return):\n                nonreturn_children.append(child)\n            break\n\n        nonreturn_children.append(child)\n    return_children = [child.value for child in core.walk(node, ast.Return)]\n\n    if any(\n        core.has_side_effect(child, safe_callables)\n        for child in itertools.chain(nonreturn_children, return_children)\n    ):\n        return False\n    pass\n    return True\n\n\ndef safe_callable_names(root: ast.Module) -> Collection[str]:')]),
+    Variant("admission-helper-remembers-verdicts", "FIRE", "parsing", '            nonreturn_children = []\n            for child in node.body:\n                if core.is_blocking(child):\n                    if not isinstance(child, ast.Return):\n                        # For example a raise, or an if where all branches return\n                        nonreturn_children.append(child)\n                    break\n\n                nonreturn_children.append(child)\n            return_children = [child.value for child in core.walk(node, ast.Return)]\n\n            if not any(\n                core.has_side_effect(child, safe_callables)\n                for child in itertools.chain(nonreturn_children, return_children)\n            ):\n                safe_callable_nodes.add(node)', '            if _definition_is_pure(node, safe_callables):\n                safe_callable_nodes.add(node)', "R16.14", extra=[("parsing", 'def safe_callable_names(root: ast.Module) -> Collection[str]:', '_SEEN = set()\n\n\ndef _definition_is_pure(node, safe_callables):\n    if ast.dump(node) in _SEEN:\n        return True\n    nonreturn_children = []\n    for child in node.body:\n        if core.is_blocking(child):\n            if not isinstance(child, ast.Return):\n                nonreturn_children.append(child)\n            break\n\n        nonreturn_children.append(child)\n    return_children = [child.value for child in core.walk(node, ast.Return)]\n\n    if any(\n        core.has_side_effect(child, safe_callables)\n        for child in itertools.chain(nonreturn_children, return_children)\n    ):\n        return False\n    _SEEN.add(ast.dump(node))\n    return True\n\n\ndef safe_callable_names(root: ast.Module) -> Collection[str]:')]),
+    Variant("admission-helper-answers-yes-early", "FIRE", "parsing", '            nonreturn_children = []\n            for child in node.body:\n                if core.is_blocking(child):\n                    if not isinstance(child, ast.Return):\n                        # For example a raise, or an if where all branches return\n                        nonreturn_children.append(child)\n                    break\n\n                nonreturn_children.append(child)\n            return_children = [child.value for child in core.walk(node, ast.Return)]\n\n            if not any(\n                core.has_side_effect(child, safe_callables)\n                for child in itertools.chain(nonreturn_children, return_children)\n            ):\n                safe_callable_nodes.add(node)', '            if _definition_is_pure(node, safe_callables):\n                safe_callable_nodes.add(node)', "R16.6", extra=[("parsing", 'def safe_callable_names(root: ast.Module) -> Collection[str]:', 'def _definition_is_pure(node, safe_callables):\n    if len(node.body) == 1:\n        return True\n    nonreturn_children = []\n    for child in node.body:\n        if core.is_blocking(child):\n            if not isinstance(child, ast.Return):\n                nonreturn_children.append(child)\n            break\n\n        nonreturn_children.append(child)\n    return_children = [child.value for child in core.walk(node, ast.Return)]\n\n    if any(\n        core.has_side_effect(child, safe_callables)\n        for child in itertools.chain(nonreturn_children, return_children)\n    ):\n        return False\n    pass\n    return True\n\n\ndef safe_callable_names(root: ast.Module) -> Collection[str]:')]),
     Variant("blocking-statement-not-checked", "FIRE", "parsing",
             "                if core.is_blocking(child):\n                    if not isinstance(child, ast.Return):\n                        # For example a raise, or an if where all branches return\n                        nonreturn_children.append(child)\n                    break\n",
             "                if core.is_blocking(child):\n                    break\n", "R16.12"),
